@@ -54,12 +54,12 @@ Module ProdSim.
       pose proof (ProdS.inv_step c s a s' (r_inv c s q HR) H) as I';
       scbn H; unfold resolve in H; unacc;
       step_cases H; pair_cases; bool_hyps; pair_cases; bool_hyps;
-      match goal with HR : R ?c0 ?s0 ?q0 |- _ =>
-        destr_R HR; pose_specs s0; pose proof (a_spec (ap s0)); pose proof (b2n_le1 (sync_close c0));
-        match goal with RI : Inv s0 |- _ => destr_inv RI end;
-        unfold tokens in *; unacc; rew_eqs s0;
+      match goal with HR : R ?cx ?sx ?qx |- _ =>
+        destr_R HR; pose_specs sx; pose proof (a_spec (ap sx)); pose proof (b2n_le1 (sync_close cx));
+        match goal with RI : Inv sx |- _ => destr_inv RI end;
+        unfold tokens in *; unacc; rew_eqs sx;
         cbn [sM sLate sI sR sE sS s0 dH dDn tH tS tDn tNo pH pSt pNo pAct pLive aW aL aOK bHd bRs bNo bLate bDn bSel brB brDn b2n orb andb aI aRd aLate aDn] in *;
-        destruct q0 as [qc qr qs qe];
+        destruct qx as [qc qr qs qe];
         cbn [lbl lbl_fate ostep q_called q_ret q_s q_e fAsync fClose chS chE] in *
       end
     end.
